@@ -72,7 +72,7 @@ Proof.
   destruct (seq_sz b0 =? 0); [intros H; inversion H; subst; cbn; lia|].
   destruct (cont_steps _ _ r 1 false) as [[[u l] t]|] eqn:E; [|discriminate].
   apply cont_steps_bounds in E. intros H.
-  destruct (negb (N.of_nat l =? seq_sz b0) || t || (limit <=? u)); inversion H; subst; cbn [g_len length]; lia.
+  destruct (negb (N.of_nat l =? seq_sz b0) || t || (limit <=? u) || is_surrogate u); inversion H; subst; cbn [g_len length]; lia.
 Qed.
 
 Lemma get8_len4 m g : get8 m = Some g -> (g_len g <= 4)%nat.
@@ -81,7 +81,7 @@ Proof.
   destruct (seq_sz b0 =? 0); [intros H; inversion H; subst; cbn; lia|].
   destruct (cont_steps _ _ r 1 false) as [[[u l] t]|] eqn:E; [|discriminate].
   apply cont_steps_bounds in E. pose proof (thresholds_length (seq_sz b0)) as Ht. intros H.
-  destruct (negb (N.of_nat l =? seq_sz b0) || t || (limit <=? u)); inversion H; subst; cbn [g_len]; lia.
+  destruct (negb (N.of_nat l =? seq_sz b0) || t || (limit <=? u) || is_surrogate u); inversion H; subst; cbn [g_len]; lia.
 Qed.
 
 (* resynchronisation: whatever get8 steps over after the first unit is a continuation byte, so the next
@@ -93,7 +93,7 @@ Proof.
   destruct (seq_sz b0 =? 0); [intros H; inversion H; subst; cbn; constructor|].
   destruct (cont_steps _ _ r 1 false) as [[[u l] t]|] eqn:E; [|discriminate].
   apply cont_steps_skipped in E. intros H.
-  destruct (negb (N.of_nat l =? seq_sz b0) || t || (limit <=? u)); inversion H; subst; cbn [g_len]; exact E.
+  destruct (negb (N.of_nat l =? seq_sz b0) || t || (limit <=? u) || is_surrogate u); inversion H; subst; cbn [g_len]; exact E.
 Qed.
 
 Lemma get8_ext m g rest : get8 m = Some g -> get8 (m ++ rest) = Some g.
@@ -125,7 +125,7 @@ Proof.
   intros Hm. unfold get8. destruct m as [|b0 r]; [congruence|].
   destruct (seq_sz b0 =? 0) eqn:Ez; [discriminate|].
   destruct (cont_steps _ _ r 1 false) as [[[u l] t]|] eqn:E.
-  { destruct (negb (N.of_nat l =? seq_sz b0) || t || (limit <=? u)); discriminate. }
+  { destruct (negb (N.of_nat l =? seq_sz b0) || t || (limit <=? u) || is_surrogate u); discriminate. }
   intros _. apply cont_steps_none in E. destruct E as [Hc Hl].
   unfold validate8. rewrite rev_app_distr.
   apply N.eqb_neq in Ez.
@@ -168,7 +168,7 @@ Proof.
   - cbn. discriminate.
   - destruct (seq_sz b0 =? 0); [discriminate|].
     destruct (cont_steps_nul (thresholds (seq_sz b0)) (N.land b0 (lead_mask (seq_sz b0))) r rest 1 false) as ([[u l] tl] & Hx & _).
-    rewrite Hx. destruct (negb (N.of_nat l =? seq_sz b0) || tl || (limit <=? u)); discriminate.
+    rewrite Hx. destruct (negb (N.of_nat l =? seq_sz b0) || tl || (limit <=? u) || is_surrogate u); discriminate.
 Qed.
 
 Lemma get8_nul_len t rest g : t <> [] -> get8 (t ++ 0 :: rest) = Some g -> (g_len g <= length t)%nat.
@@ -177,46 +177,60 @@ Proof.
   destruct (seq_sz b0 =? 0); [intros H; inversion H; subst; cbn; lia|].
   destruct (cont_steps_nul (thresholds (seq_sz b0)) (N.land b0 (lead_mask (seq_sz b0))) r rest 1 false) as ([[u l] tl] & Hx & Hl).
   rewrite Hx. cbn [fst snd] in Hl. intros H.
-  destruct (negb (N.of_nat l =? seq_sz b0) || tl || (limit <=? u)); inversion H; subst; cbn [g_len length]; lia.
+  destruct (negb (N.of_nat l =? seq_sz b0) || tl || (limit <=? u) || is_surrogate u); inversion H; subst; cbn [g_len length]; lia.
 Qed.
 
 Lemma get8_nul_zero rest : get8 (0 :: rest) = Some (mkgot 0 1 true).
 Proof. reflexivity. Qed.
 
 (* ================================================================ UTF-8: round trip, by exhaustive evaluation *)
-Definition valid8 (u : N) : Prop := u < 0x110000.
+Definition valid8 (u : N) : Prop := u < 0x110000 /\ ~ (0xD800 <= u <= 0xDFFF).
 
-Lemma chk8_valid u : valid8 u -> chk8 u = true.
-Proof. intros H. exact (all_below_spec _ _ chk8_all u H). Qed.
+Lemma chk8_valid u : valid8 u ->
+  got_is (get8 (put8 u)) u (length (put8 u)) && complete_tail (put8 u) && Nat.leb 1 (length (put8 u)) = true.
+Proof.
+  intros [H Hs]. pose proof (all_below_spec _ _ chk8_all u H) as C. unfold chk8 in C.
+  assert (E : is_surrogate u = false) by (unfold is_surrogate; lia). rewrite E in C. exact C.
+Qed.
+
+(* a surrogate code point written out as three bytes (ED A0..BF xx) is refused: U+FFFD with the error flag *)
+Lemma get8_surrogate u : 0xD800 <= u <= 0xDFFF -> exists l, get8 (put8 u) = Some (mkgot 0xFFFD l false).
+Proof.
+  intros H. pose proof (all_below_spec _ _ chk8_all u ltac:(lia)) as C. unfold chk8 in C.
+  assert (E : is_surrogate u = true) by (unfold is_surrogate; lia). rewrite E in C.
+  unfold got_err in C. destruct (get8 (put8 u)) as [[v l ok]|]; [|discriminate]. cbn [g_usv g_ok] in C.
+  apply andb_prop in C. destruct C as [C1 C2]. apply N.eqb_eq in C1. subst v. destruct ok; [discriminate|]. exists l. reflexivity.
+Qed.
 
 Lemma get8_put8 u rest : valid8 u -> get8 (put8 u ++ rest) = Some (mkgot u (length (put8 u)) true).
 Proof.
-  intros H. apply chk8_valid in H. unfold chk8 in H.
+  intros H. apply chk8_valid in H.
   apply andb_prop in H. destruct H as [H _]. apply andb_prop in H. destruct H as [H _].
   apply get8_ext. apply got_is_spec. exact H.
 Qed.
 
 Lemma put8_len u : valid8 u -> (1 <= length (put8 u))%nat.
 Proof.
-  intros H. apply chk8_valid in H. unfold chk8 in H. apply andb_prop in H. destruct H as [_ H].
+  intros H. apply chk8_valid in H. apply andb_prop in H. destruct H as [_ H].
   apply Nat.leb_le. exact H.
 Qed.
 
 Lemma validate8_put8 p u : valid8 u -> validate8 (p ++ put8 u) = true.
 Proof.
-  intros H. apply chk8_valid in H. unfold chk8 in H.
+  intros H. apply chk8_valid in H.
   apply andb_prop in H. destruct H as [H _]. apply andb_prop in H. destruct H as [_ H].
   apply complete_tail_validate. exact H.
 Qed.
 
-(* a successful get8 returns a scalar below the limit: nothing above U+10FFFF is ever produced *)
-Lemma get8_ok_below_limit m g : get8 m = Some g -> g_ok g = true -> g_usv g < 0x110000.
+(* a successful get8 returns a scalar value: nothing above U+10FFFF and no surrogate code point is ever produced *)
+Lemma get8_ok_below_limit m g : get8 m = Some g -> g_ok g = true -> valid8 (g_usv g).
 Proof.
   unfold get8. destruct m as [|b0 r]; [discriminate|].
   destruct (seq_sz b0 =? 0); [intros H; inversion H; subst; discriminate|].
   destruct (cont_steps _ _ r 1 false) as [[[u l] t]|]; [|discriminate].
-  destruct (negb (N.of_nat l =? seq_sz b0) || t || (limit <=? u)) eqn:E; intros H; inversion H; subst; cbn; [discriminate|].
-  intros _. apply Bool.orb_false_elim in E. destruct E as [_ E]. unfold limit in E. lia.
+  destruct (negb (N.of_nat l =? seq_sz b0) || t || (limit <=? u) || is_surrogate u) eqn:E; intros H; inversion H; subst; cbn; [discriminate|].
+  intros _. apply Bool.orb_false_elim in E. destruct E as [E Es]. apply Bool.orb_false_elim in E. destruct E as [_ E].
+  unfold limit in E. unfold is_surrogate in Es. unfold valid8. lia.
 Qed.
 
 (* ================================================================ UTF-16 *)
@@ -298,23 +312,25 @@ Proof.
 Qed.
 
 (* ================================================================ UTF-32 *)
-Definition valid32 (u : N) : Prop := u < 0x110000.
+Definition valid32 (u : N) : Prop := u < 0x110000 /\ ~ (0xD800 <= u <= 0xDFFF).
 
 Lemma get32_len m g : get32 m = Some g -> (1 <= g_len g <= length m)%nat.
-Proof. unfold get32. destruct m as [|c r]; [discriminate|]. destruct (c <? limit); intros H; inversion H; subst; cbn; lia. Qed.
+Proof. unfold get32. destruct m as [|c r]; [discriminate|]. destruct ((c <? limit) && negb (is_surrogate c)); intros H; inversion H; subst; cbn; lia. Qed.
 Lemma get32_none_validate p m : m <> [] -> get32 m = None -> validate32 (p ++ m) = false.
-Proof. intros Hm. unfold get32. destruct m as [|c r]; [congruence|]. destruct (c <? limit); discriminate. Qed.
+Proof. intros Hm. unfold get32. destruct m as [|c r]; [congruence|]. destruct ((c <? limit) && negb (is_surrogate c)); discriminate. Qed.
 Lemma get32_nul_some t rest : get32 (t ++ 0 :: rest) <> None.
-Proof. unfold get32. destruct t as [|c r]; cbn [app]; [cbn; discriminate|]. destruct (c <? limit); discriminate. Qed.
+Proof. unfold get32. destruct t as [|c r]; cbn [app]; [cbn; discriminate|]. destruct ((c <? limit) && negb (is_surrogate c)); discriminate. Qed.
 Lemma get32_nul_len t rest g : t <> [] -> get32 (t ++ 0 :: rest) = Some g -> (g_len g <= length t)%nat.
 Proof.
   intros Ht. unfold get32. destruct t as [|c r]; [congruence|]. cbn [app].
-  destruct (c <? limit); intros H; inversion H; subst; cbn; lia.
+  destruct ((c <? limit) && negb (is_surrogate c)); intros H; inversion H; subst; cbn; lia.
 Qed.
 Lemma get32_nul_zero rest : get32 (0 :: rest) = Some (mkgot 0 1 true).
 Proof. reflexivity. Qed.
 Lemma get32_put32 u rest : valid32 u -> get32 (put32 u ++ rest) = Some (mkgot u (length (put32 u)) true).
-Proof. unfold valid32, get32, put32, limit. intros H. cbn [app length]. assert (E : (u <? 0x110000) = true) by lia. rewrite E. reflexivity. Qed.
+Proof. unfold valid32, get32, put32, limit, is_surrogate. intros H. cbn [app length]. assert (E : (u <? 0x110000) && negb ((0xD800 <=? u) && (u <? 0xE000)) = true) by lia. rewrite E. reflexivity. Qed.
+Lemma get32_surrogate u rest : 0xD800 <= u <= 0xDFFF -> get32 (u :: rest) = Some (mkgot 0xFFFD 1 false).
+Proof. unfold get32, limit, is_surrogate. intros H. assert (E : (u <? 0x110000) && negb ((0xD800 <=? u) && (u <? 0xE000)) = false) by lia. rewrite E. reflexivity. Qed.
 Lemma put32_len u : valid32 u -> (1 <= length (put32 u))%nat.
 Proof. cbn. lia. Qed.
 Lemma validate32_put32 p u : valid32 u -> validate32 (p ++ put32 u) = true.
@@ -323,6 +339,8 @@ Proof. reflexivity. Qed.
 (* ================================================================ the three encodings agree *)
 Lemma valid16_valid8 u : valid16 u -> valid8 u.
 Proof. unfold valid16, valid8. tauto. Qed.
+Lemma valid16_valid32 u : valid16 u -> valid32 u.
+Proof. unfold valid16, valid32. tauto. Qed.
 
 Lemma map_fst_combine_bases put pos us : map fst (combine us (bases put pos us)) = us.
 Proof.
